@@ -268,6 +268,13 @@ def run_case_inner(case):
                 except Exception as e:  # noqa
                     return [(f'C16|derive|raises:{type(e).__name__}@{tb_where(e)}', f'{e!r}; first certificate of case {case}')], None
                 signer.key_locator_name = loc
+            if case.get('form') == 'uri':
+                # the same key name text has been used for another certificate before (a renewal, or a request after a self-signed one)
+                try:
+                    with fixed_now('2023-05-05T05:05:05+00:00'):
+                        sv2.self_sign(given_form(case, kn_given or kn), pub, signer)
+                except Exception as e:  # noqa
+                    return [(f'C16|self|raises:{type(e).__name__}@{tb_where(e)}', f'{e!r}; earlier certificate of case {case}')], None
             if case['f'] == 'derive':
                 ids = dict(ISSUER_IDS)
                 iid = ids[case['iid']]
